@@ -19,7 +19,7 @@ CLAIMED = {
             'exact reals; raysect Spectrum / vectors replaced by a model; Lorentzian quadrature accuracy, the Olivero FWHM and weight '
             'polynomials (only w_g + w_l = 1 is used) and the hyp2f1 constant (compared concretely) are outside; translator validated '
             'against the compiled module on every run.',
-            'DESIGN.md §4 C02', TECH),
+            'DESIGN.md §3 / Appendix A C02', TECH),
 }
 CLAIMED['C20'] = (
     'generate_derivative_operators is executed from source on object arrays for every grid shape 2x2..3x3 (quick) / ..5x4 '
@@ -29,7 +29,7 @@ CLAIMED['C20'] = (
     'compared with div(D grad f) in cylindrical geometry derived at run time by sympy; anisotropy=1 => Laplacian.',
     'grid shapes are enumerated (stated), all continuous quantities are solver-quantified; doubles as exact reals; '
     'numpy object arrays carry the proxies through numpy\'s own @, mean, diff, diag.',
-    'DESIGN.md §4 C20', TECH)
+    'DESIGN.md §3 / Appendix A C20', TECH)
 CLAIMED['C09'] = (
     'ionisation_balance.py is executed from source on object arrays. balance_point: for Z<=4 (quick) / <=10 (thorough), '
     'with and without CX donor, every entry of the assembled system is compared with the documented rate equations, an '
@@ -40,7 +40,7 @@ CLAIMED['C09'] = (
     'consistently, to multiply by the element density, and to match neutrality as documented.',
     'scipy lsq_linear by contract; rates are positive symbols; Z and profile length are concrete per job (stated bounds); '
     'interpolators / map3d beyond node values are outside the claim.',
-    'DESIGN.md §4 C09', TECH)
+    'DESIGN.md §3 / Appendix A C09', TECH)
 CLAIMED['C11'] = (
     'invert_sart / invert_constrained_sart (translated from sart.pyx) are executed for all m x n x iterations shapes up to '
     '2x2x1, 1x2x2, 2x1x2, 1x1x3 (quick; 2x2x2, 3x2, 2x3, x3 thorough) with weights >= 0 (zero rows / columns included), '
@@ -52,7 +52,7 @@ CLAIMED['C11'] = (
     'scipy nnls / numpy lstsq / scipy pinv by contract (nnls stated on the max(b)-rescaled system: argmin invariant under '
     'positive rescaling is a stated lemma); shapes concrete per job; SVD only for shapes with one dimension = 1 (2x2 '
     'Moore-Penrose reasoning is beyond z3 NRA within the budget).',
-    'DESIGN.md §4 C11', TECH)
+    'DESIGN.md §3 / Appendix A C11', TECH)
 CLAIMED['C19'] = (
     'The registry is extracted by executing the translated elements.pyx; its tables become if-then-else terms over solver '
     'index variables and z3 decides, exhaustively over all entries, name/symbol uniqueness, periodic-table agreement, '
@@ -62,7 +62,7 @@ CLAIMED['C19'] = (
     'symbolic fields: eq <=> all fields equal, ne complementary, equal objects hash equal field tuples.',
     'string equality inside the table is interned to integers; registry entries are enumerated by forking on the index '
     'variable (finite, complete); hash() kept structural.',
-    'DESIGN.md §4 C19', TECH)
+    'DESIGN.md §3 / Appendix A C19', TECH)
 CLAIMED['C15'] = (
     'One CrossHair contract per (group class, group-level attribute) is generated from the real classes\' own property '
     'lists and checked with symbolic group size (0..3 / 0..4), value kind, scalar and List[int] (len <=4 / <=5): scalar '
@@ -73,7 +73,7 @@ CLAIMED['C15'] = (
     'members are Python subclasses of the real raysect observers with the broadcast attributes shadowed by plain storage; '
     'classes x attributes enumerated from the code (stated), sizes and values decided by CrossHair/z3; BolometerCamera '
     '(no broadcast attributes, needs full foil/slit geometry) and the ndarray value kind are outside the claim.',
-    'DESIGN.md §4 C15', 'CrossHair 0.0.110: symbolic execution of the real Python classes with z3, generated PEP316 contracts')
+    'DESIGN.md §3 / Appendix A C15', 'CrossHair 0.0.110: symbolic execution of the real Python classes with z3, generated PEP316 contracts')
 CLAIMED['C13'] = (
     'Every wrapper class (IsoMapper2D/3D, Swizzle2D, Swizzle3D for all 27 shapes, Slice2D/3D for every axis selector, '
     'AxisymmetricMapper, VectorAxisymmetricMapper, ClampInput/Output 1-3D, CylindricalTransform, VectorCylindricalTransform, '
@@ -85,7 +85,7 @@ CLAIMED['C13'] = (
     'entry [i,j,k] is the function at (x_i,y_j,z_k) on the evenly spaced grid including both end points.',
     'fmod in double mode by its C99 contract; sqrt/atan2 by defining equations; numpy.linspace modelled; PolygonMask2D not '
     'claimed (pure delegation to raysect triangulation).',
-    'DESIGN.md §4 C13', TECH + '; z3 Float64 for the periodic kernel')
+    'DESIGN.md §3 / Appendix A C13', TECH + '; z3 Float64 for the periodic kernel')
 CLAIMED['C18'] = (
     'The four laser profiles (translated) are constructed with all parameters symbolic; z3 proves the energy density at a '
     'symbolic point equals E/(c tau) times the product of normal pdfs with the documented widths (uniform: the given '
@@ -97,7 +97,7 @@ CLAIMED['C18'] = (
     '(every bin edge handed to the density lies inside [min,max]).',
     'exp/erf uninterpreted with lemma schemas; the Gaussian integral = 1 is a stated lemma; bins concrete per job; the '
     'double-mode unsat proofs are reported as inconclusive-FP when the solver does not finish (never as success).',
-    'DESIGN.md §4 C18', TECH + '; z3 Float64 for the bin edges')
+    'DESIGN.md §3 / Appendix A C18', TECH + '; z3 Float64 for the bin edges')
 CLAIMED['C16'] = (
     'Spectrometer, CzernyTurnerSpectrometer, Polychromator / TrapezoidalFilter are executed from source on object arrays: '
     'for symbolic monotone pixel-edge arrays (layouts up to 1+2 pixels quick / 3 spectra thorough), filters and bin '
@@ -108,7 +108,7 @@ CLAIMED['C16'] = (
     'pipelines) equals that of an instrument built directly with the final parameters.',
     'Spectrum.integrate is an uninterpreted function; InterpolatedSF a recording stub; pixel counts concrete per job; '
     'sequences of setters are covered by induction over single setters from a fresh-equivalent state.',
-    'DESIGN.md §4 C16', TECH)
+    'DESIGN.md §3 / Appendix A C16', TECH)
 CLAIMED['C06'] = (
     'All add_/get_ functions of the 14 repository sections are executed from source on an in-memory store with symbolic '
     'keys: element symbols, transition levels and the repository path are z3 strings (carried through the real string '
@@ -122,7 +122,7 @@ CLAIMED['C06'] = (
     'symbols alphanumeric after lower-casing, levels without - and > (stated precondition making encode_transition '
     'injective); LOWER uninterpreted (idempotent on canonical atoms); JSON float round-trip and the real file system are '
     'outside; interleavings are covered as: write, overwrite in another spelling, write of a neighbouring key, reads.',
-    'DESIGN.md §4 C06', TECH + '; z3 + cvc5 string theory for location terms')
+    'DESIGN.md §3 / Appendix A C06', TECH + '; z3 + cvc5 string theory for location terms')
 CLAIMED['C07'] = (
     'provider: each of the 13 rate accessors and wavelength() of OpenADAS (run from source) is executed for all 8 flag '
     'combinations, element / isotope arguments and a nondeterministic repository (every getter either returns a token or '
@@ -135,7 +135,7 @@ CLAIMED['C07'] = (
     'the range => ValueError iff extrapolation is off.',
     'raysect cubic interpolators by contract (node value, range policy); log10 and 10**x uninterpreted inverse monotone '
     'functions; values between grid points are not claimed.',
-    'DESIGN.md §4 C07', TECH)
+    'DESIGN.md §3 / Appendix A C07', TECH)
 CLAIMED['C14'] = (
     'Caching1D/2D/3D (translated, with find_index / derivatives_array / factorial) are executed on exact rational '
     'arithmetic for the area [0,1]^d and several resolutions (2-5 cells per axis in 1D, 2-3 in 2D, 2 in 3D) with the wrapped '
@@ -145,7 +145,7 @@ CLAIMED['C14'] = (
     '(1/4) h^2 max|F\'\'| (1D), and outside the area the object raises or - no_boundary_error - calls the function directly.',
     'numpy.linalg.solve modelled as the exact rational inverse of the concrete collocation matrix; area/resolution concrete per '
     'job; 3D history independence only in the thorough tier; general C2 error bound outside the claim.',
-    'DESIGN.md §4 C14', TECH)
+    'DESIGN.md §3 / Appendix A C14', TECH)
 CLAIMED['C17'] = (
     'AxisymmetricVoxel.cross_sectional_area / cross_section_centroid / volume (translated) are executed on polygons with 3-5 '
     '(6 thorough) fully symbolic vertices: z3 proves area = |fan-triangulation area|, centroid = area-weighted mean of the fan '
@@ -156,7 +156,7 @@ CLAIMED['C17'] = (
     'requested sample, constant emissivity returned exactly; VoxelCollection.total_volume is the sum of the voxel volumes.',
     'raysect winding2d / triangulate2d / find_index / point_triangle / uniform are models or stubs; CSG construction and '
     'uniformity inside a triangle are outside the claim.',
-    'DESIGN.md §4 C17', TECH)
+    'DESIGN.md §3 / Appendix A C17', TECH)
 CLAIMED['C10'] = (
     'Both RayTransfer integrators (translated) are executed with the voxel map an uninterpreted function from cells to source '
     'ids in [-1,2), the ray length, start point and integration step symbolic and every sample position havocked (arbitrary '
@@ -169,7 +169,7 @@ CLAIMED['C10'] = (
     'enumeration on a 2x1x2 grid (numpy boolean indexing cannot be symbolic; labelled as enumeration).',
     'raysect geometry (start/end points), the two-step chord-length error bound and floating-point rounding of the index '
     'computation are outside the claim; atan2 and sqrt are havocked / harness-supplied in the accumulation harness.',
-    'DESIGN.md §4 C10', TECH)
+    'DESIGN.md §3 / Appendix A C10', TECH)
 CLAIMED['C03'] = (
     'ExcitationLine, RecombinationLine, ThermalCXLine, TotalRadiatedPower and Bremsstrahlung (translated) are executed on an '
     '8-species composition (neutral and bare charge states, hydrogen isotopes, a second bare nucleus) with every density and '
@@ -181,7 +181,7 @@ CLAIMED['C03'] = (
     'Hutchinson expression (constant re-assembled from CODATA values); no emission exactly when a required quantity is '
     'non-positive; never negative; the right coefficients are requested.',
     'line shape and integrator are recording stubs (C02 / quadrature error outside); one evaluation point per run.',
-    'DESIGN.md §4 C03', TECH)
+    'DESIGN.md §3 / Appendix A C03', TECH)
 CLAIMED['C05'] = (
     'BeamCXLine (1-2 beam metastables quick, 3 thorough) and BeamEmissionLine (translated) are executed on a composition of '
     'C6+, C5+, He2+, H+ and a neutral with null coefficients; beam energy / density, ion densities, temperatures, flow '
@@ -193,7 +193,7 @@ CLAIMED['C05'] = (
     'documented.',
     'line shapes are recording stubs; sqrt as root variable; the beam points along +z (flow velocities symbolic); '
     'cdivision by the neutral charge 0 keeps z3 total division (its value is multiplied by 0).',
-    'DESIGN.md §4 C05', TECH)
+    'DESIGN.md §3 / Appendix A C05', TECH)
 CLAIMED['C04'] = (
     'SingleRayAttenuator (translated, with conversion.py from source) is executed for a 1 m beam with 4 / 5 (9 thorough) axis '
     'nodes, energy, power, sigma, divergences, beam translation, species density / temperature / velocity profiles '
@@ -206,7 +206,7 @@ CLAIMED['C04'] = (
     'cumulative_trapezoid and the linear Interpolator1DArray are exact models; cross-section integral of the normal pdf = 1 is a '
     'stated lemma (so flux(z) = line density); beam placement by translation only; CODATA constants taken from scipy as the '
     'package does.',
-    'DESIGN.md §4 C04', TECH)
+    'DESIGN.md §3 / Appendix A C04', TECH)
 CLAIMED['C12'] = (
     'EFITEquilibrium.__init__ / map2d / map3d / map_vector2d / map_vector3d, EFITLCFSMask, MagneticField, PoloidalFieldVector, '
     'FluxSurfaceNormal, FluxCoordToCartesian, IsoMapper2D, (Vector)AxisymmetricMapper and ClampOutput2D are executed from source on a '
@@ -219,7 +219,7 @@ CLAIMED['C12'] = (
     'the cubic interpolators are modelled by contract (linear functional of node data with uninterpreted weights summing to one); the '
     'polygon test is an uninterpreted 0/1 function; basis identities are proved for abstracted field components (generalisation); '
     'psin_to_r is outside; the bundled equilibria are covered only as instances of "any psi grid" up to the stated grid sizes.',
-    'DESIGN.md §4 C12', TECH)
+    'DESIGN.md §3 / Appendix A C12', TECH)
 CLAIMED['C08'] = (
     'parse_adf11 / parse_adf12 / parse_adf15 / parse_adf21 / parse_adf22bmp / parse_adf22bme, readvalues, parse_adas2x_rate and every '
     'install_adf* function are executed from /repo source on files produced by independent writers of the published layouts. The text '
@@ -231,19 +231,20 @@ CLAIMED['C08'] = (
     'handed to repository.update_* have the documented keys. Element mismatch, absent block, invalid header are checked to raise.',
     'text structure is enumerated, not symbolic (regular-expression scraping of symbolic text is out of reach of the solvers available); the '
     'repository write/read-back leg is C06\'s claim (update_* arguments are compared here); ADF12 header columns follow the parser.',
-    'DESIGN.md §4 C08', 'concrete enumeration of file layouts x symbolic numeric content: real parsers executed on z3 proxies, SMT (z3) decides each table-cell equality')
+    'DESIGN.md §3 / Appendix A C08', 'concrete enumeration of file layouts x symbolic numeric content: real parsers executed on z3 proxies, SMT (z3) decides each table-cell equality')
 CLAIMED['C01'] = (
-    'The real Plasma and Beam nodes, Composition / ModelManager, PlasmaMaterial / BeamMaterial, PlasmaModel / BeamModel / BeamAttenuator, the '
-    'five passive models, BeamCXLine, BeamEmissionLine, SingleRayAttenuator and the Notifier are executed from source on a transcribed raysect '
-    'scene graph. Histories build -> [observe] -> change -> [observe] -> change -> observe are explored for every ordered pair (triple in the '
-    'thorough tier) of the 15 plasma mutators and every one (pair in the thorough tier) of the 21 beam / attenuator / plasma mutators, with the '
-    'interleaved observations as symbolic choices and every new value a fresh symbolic object; z3 decides that the final observation '
-    '(material emission function at a symbolic point, beam density, bounding primitive and its dimensions, integrator, ion density, Z_eff) '
-    'equals that of a scene built from scratch in the final configuration. Bounded, not a proof.',
-    'scene-graph callbacks follow the compiled dispatch (C-only methods are not reached by raysect); translations only; line shapes are '
-    'recording stubs and rates uninterpreted functions tagged by provider; exp / sqrt are plain uninterpreted functions on the beam side; '
-    'laser nodes / Thomson scattering and ray tracing through the bounding primitive are outside; one known finding (clamp_sigma) is listed.',
-    'DESIGN.md §4 C01', 'bounded exploration of mutator histories by symbolic execution of the translated real source (history choices and all values symbolic); SMT (z3) decides live-vs-fresh observation equality per path')
+    'The real Plasma, Beam and Laser nodes, Composition / ModelManager, PlasmaMaterial / BeamMaterial / LaserMaterial, PlasmaModel / BeamModel / '
+    'BeamAttenuator / LaserModel, the five passive models, BeamCXLine, BeamEmissionLine, SingleRayAttenuator and the Notifier are executed from '
+    'source on a transcribed raysect scene graph. Histories build -> [observe] -> change -> [observe] -> change -> observe are explored for every '
+    'ordered pair (triple in the thorough tier) of the 15 plasma and 12 laser mutators, and for every single change plus 20 selected pairs (all pairs '
+    'in the thorough tier) of the 21 beam / attenuator / plasma mutators, with the interleaved observations as symbolic choices and every new '
+    'value a fresh symbolic object; z3 decides that the final observation (material emission function at a symbolic point, beam density, bounding '
+    'primitive and its dimensions, integrator, importance, ion density, Z_eff) equals that of a scene built from scratch in the final '
+    'configuration, and that mutators are accepted in any order. Bounded, not a proof.',
+    'scene-graph callbacks follow the compiled dispatch (C-only methods are not reached by raysect); translations only; line shapes and the laser '
+    'model are recording stubs, rates uninterpreted functions tagged by provider; exp / sqrt are plain uninterpreted functions on the beam and '
+    'laser side; ray tracing through the bounding primitives and the Thomson formula itself are outside; one known finding (clamp_sigma) is listed.',
+    'DESIGN.md §3 C01', 'bounded exploration of mutator histories by symbolic execution of the translated real source (history choices and all values symbolic); SMT (z3) decides live-vs-fresh observation equality per path')
 NOT_YET = {}
 props = [json.loads(l) for l in open(os.path.join(HERE, 'properties.jsonl'))]
 checks, na = [], []
